@@ -212,7 +212,7 @@ func vRunPC(cs *vPCCase) (verdict string, detail string) {
 	a2 := &net.TCPAddr{IP: net.IPv4(127, 0, 0, 1), Port: 2222}
 	cc := &vConn{in: s2c, out: c2s, la: a1, ra: a2}
 	sc := &vConn{in: c2s, out: s2c, la: a2, ra: a1}
-	bufSizes := []int{64, 512, 4096, 70000}
+	bufSizes := []int{64, 512, 4096, 70000, 17, 50, 100, 1000, 4099} // incl. sizes that are no multiple of the cipher block
 	cpc := rpc.NewPacketConn(cc, bufSizes[r.Intn(len(bufSizes))], bufSizes[r.Intn(len(bufSizes))])
 	spc := rpc.NewPacketConn(sc, bufSizes[r.Intn(len(bufSizes))], bufSizes[r.Intn(len(bufSizes))])
 	key := ""
